@@ -29,22 +29,19 @@ PROP = Prop(
                  "ShareFetch piggybacks [0,2][4,5][3,3][6,6]); that probe also shows kfake losing the piggybacked ack error when the ShareFetch long-polls",
                  "PROTOCOL HALF NOT COVERED: at-most-once delivery of a final ack to the broker, no redelivery after a confirmed accept/reject, auto-accept at the "
                  "next poll, release on close and the FlushAcks/callback ordering are not checked by this plug-in"],
-    partial="The ordering clause is FALSE of the current code (build_ascending_false, decided witness entries {10,11 accept} + gap [5,9] -> [10,11],[5,9]): "
-            "buildAckRanges emits all user-entry ranges and then all gap ranges. Proved instead: the output is two ascending non-overlapping runs "
-            "(build_two_runs_partial), it is ascending whenever no gap range starts below a decided entry (build_ascending_partial), and every offset is "
-            "acknowledged exactly once with its type (build_coverage). Only the pure half of C12 is covered.",
+    partial="Only the pure half of C12 is covered by these ops. The range clause is proved at full strength (build_spec) since repair 5958f14; "
+            "before it the ordering conjunct was false (finding ackranges-gaps-after-entries, regression kept in corpus/C12 and as an example).",
 )
 MANIFEST = {
     "text": "PURE HALF ONLY. Lean theorems, all inputs: the per-record ack state machine of tryAck (atomic actions = the code's Load/CompareAndSwap, any number "
             "of callers, any interleaving, renew resets) sets a final outcome at most once, keeps it, and ends terminal exactly when one call won; "
-            "buildAckRanges/coalesceAppendRange acknowledge every pending offset exactly once with its ack type (gaps as gaps), flag renews exactly when a renew "
-            "batch is present, and emit two ascending non-overlapping runs; the property's 'ascending order' clause is refuted by a decided witness and the "
-            "differential check reports that class on the real code under the stable key ackranges-gaps-after-entries (user ranges are emitted before gap "
-            "ranges; kfake and Kafka answer such a list with INVALID_REQUEST for the partition). filterStaleEntries keeps exactly the entries of this source and "
+            "buildAckRanges/coalesceAppendRange emit, for every well-formed input, an ascending non-overlapping batch list that acknowledges every pending offset "
+            "exactly once with its ack type (gaps as gaps) and flags renews exactly when a renew batch is present (model re-transcribed after repair 5958f14; "
+            "the pre-repair defect 'gap ranges after entry ranges' keeps the stable key ackranges-gaps-after-entries and a regression case). filterStaleEntries keeps exactly the entries of this source and "
             "session. The model is tied to the code by differential runs through a verif export, exhaustive over small scopes in the thorough tier. "
             "The protocol half of C12 (redelivery, auto-accept, release on close, FlushAcks ordering) is not covered.",
     "note": "Trusted: Lean kernel; the hand-written model (validated differentially, not verified); Go's sort modelled as stable; Kafka offsets below 2^63-1; "
             "gap ranges disjoint from each other and from decided entries; tryAck statuses 1..4. Real-goroutine tryAck runs are judged by the Spec only.",
-    "technique": "Lean 4 proof (transition-system invariant for the CAS machine; induction over the coalescing fold; decided counterexample for the failing clause) "
+    "technique": "Lean 4 proof (transition-system invariant for the CAS machine; induction over the coalescing fold; interleaving lemma for the merged gap/entry list) "
                  "with differential correspondence against the real functions",
 }
